@@ -170,6 +170,11 @@ class _ParseTreeProcessor(parsimonious.NodeVisitor):
     def visit_end_of_line(self, _n: _Node, _c: _Children) -> None:
         self._current_line_number += 1
 
+    def visit_definition(self, _n: _Node, _c: _Children) -> None:
+        # The last line is not necessarily terminated with a line break, so whatever is still pending when the
+        # end of the definition is reached (the last attribute along with its doc comment) has to be flushed here.
+        self._flush_comment()
+
     # ================================================== Statements ==================================================
 
     visit_statement = _make_typesafe_child_lifter(type(None))  # Make sure all sub-nodes have been handled,
